@@ -13,5 +13,6 @@ func TestVerif(t *testing.T) {
 		"C07": C07{},
 		"C08": C08{},
 		"C17": C17{},
+		"C18": C18{},
 	})
 }
